@@ -110,6 +110,7 @@ def onset_local(rule, year):
 
 
 RRULE_SPELLING = [0]      # set per run from the scenario
+RDATE_ORDER = [0]
 
 
 def rrule_text(rule):
@@ -203,7 +204,16 @@ def vtimezone(spec, tzid, form, daylight_first, nyears, fold_width=None,
         else:
             dates = [fmt_dt(onset_local(rule, y))
                      for y in range(Y0 + 1, Y0 + nyears)]
-            if dates:
+            # the values of an RDATE list come in no particular order, and
+            # may be spread over several RDATE lines
+            if RDATE_ORDER[0] == 1:
+                dates.reverse()
+            elif RDATE_ORDER[0] >= 2:
+                dates = dates[1::2] + dates[0::2]
+            if dates and RDATE_ORDER[0] == 3 and len(dates) > 2:
+                lines.append("RDATE:" + ",".join(dates[:2]))
+                lines.append("RDATE:" + ",".join(dates[2:]))
+            elif dates:
                 lines.append("RDATE:" + ",".join(dates))
         if extra == "unknown_property" and kind == "STANDARD":
             lines.append("X-WHATEVER:1")
@@ -321,7 +331,9 @@ def generate(cls, rng):
                     r[-1] = 82800
     sc = dict(spec=spec, form=form, nyears=nyears,
               daylight_first=rng.random() < 0.5,
-              fold_width=rng.choice([None, None, 30, 75, 9, 7, 5]),
+              fold_width=rng.choice([None, None, 30, 75, 9, 7, 5, 10, 11,
+                                     rng.randrange(5, 20)]),
+              rdate_order=rng.choice([0, 0, 1, 2, 3]),
               multi=rng.random() < 0.4, other=other, other_form=other_form,
               dormant=rng.choice([None, None, "after", "before"]),
               decor=rng.random() < 0.3,
@@ -395,6 +407,7 @@ def zone_ids(sc):
 
 def build_text(sc):
     RRULE_SPELLING[0] = sc.get("rrule_spelling", 0)
+    RDATE_ORDER[0] = sc.get("rdate_order", 0)
     lines = ["BEGIN:VCALENDAR", "VERSION:2.0"]
     id1, id2 = zone_ids(sc)
     zones = [(id1, sc["spec"], sc["form"])]
